@@ -45,7 +45,8 @@ Begin(l, p) == /\ pc = "build" /\ lws' = l /\ pen' = p
                /\ UNCHANGED <<fs, j, best, bp, ln, lines>>
 \* column j: best[i+1] = cost of the best arrangement of the first i fragments, bp[i+1] its last break,
 \* ln[i+1] = number of lines in it (= line number of a line that starts at fragment i+1)
-ColumnCost(i) == best[i + 1] + LineCost(fs, PreSums(fs, 1, <<0>>), n, i, j, LineW(lws, ln[i + 1]), pen)
+ColumnCost(i) == best[i + 1] + LineCostOp(fs, PreSums(fs, 1, <<0>>), n, i, j,
+                                         LineW(lws, IF HasDev("opt_line_number_by_fragment") THEN i ELSE ln[i + 1]), pen)
 DPStep ==
   /\ pc = "dp" /\ j <= n
   /\ LET m == Min({ColumnCost(i) : i \in 0..(j - 1)}) IN
